@@ -59,6 +59,14 @@ func main() {
 		for _, s := range c.G.Sites {
 			fmt.Printf("%-12s %-28s %-16s %s  in %s\n", s.Class, s.Resource, s.Verb, s.Pos, s.Fn.FullName())
 		}
+	case "anchors":
+		p, err := load.Load(*repo, false, "", "")
+		if err != nil {
+			fmt.Fprintln(os.Stderr, err)
+			os.Exit(2)
+		}
+		b, _ := json.MarshalIndent(rules.Fingerprints(p), "", " ")
+		fmt.Println(string(b))
 	case "checkall":
 		// development aid: every property (or the listed ones) on one load, no evidence written
 		fnd, err := rules.LoadFindings(*findings)
